@@ -130,6 +130,12 @@ def exclude_instruments(chord, nb, ascending=True):
     return new_chord, parts
 
 
+def _o_chord_relative_notes(melody, octave):
+    """Octave shift compensating a chord octave change: absolute notes do not follow the chord, so they stay"""
+    return Melody([n.copy() if n.type == 'a' else n.o(octave) for n in melody.notes],
+                  nb_bars=melody.nb_bars, tags=set(melody.tags))
+
+
 def inverse_recursive_correct_octave(chord):
     """
     Transform a chord to a chord with bass pitch between -6 and 6
@@ -145,12 +151,12 @@ def inverse_recursive_correct_octave(chord):
     if bass_pitch > 6:
         chord = chord.o(-1)
         for voice, melody in chord.score.items():
-            chord.score[voice] = melody.o(1)
+            chord.score[voice] = _o_chord_relative_notes(melody, 1)
         return inverse_recursive_correct_octave(chord)
     elif bass_pitch <= -6:
         chord = chord.o(1)
         for voice, melody in chord.score.items():
-            chord.score[voice] = melody.o(-1)
+            chord.score[voice] = _o_chord_relative_notes(melody, -1)
         return inverse_recursive_correct_octave(chord)
     else:
         new_chord = chord.copy()
